@@ -34,7 +34,7 @@ def fdefs(m, names):
 
 EXPLANATION += ' R11.10 no integer-literal power (negative, or >= 3) is taken of a quantity that stays an integer when the arguments are integers (numba types arithmetic by its arguments: 0 for a negative power, silent int64 wrap-around for a large one).'
 TECHNIQUE += '; syntactic type flow in numba-compiled kernels (integer-literal powers of integer-typed arguments)'
-EXPLANATION += ' R11.9 also with mixed shapes: an array spin rate with a scalar orbit and an array orbital frequency with a scalar spin rate (the entry point broadcasts the scalar side itself).'
+EXPLANATION += ' R11.9 also with mixed shapes: an array spin rate with a scalar orbit and an array orbital frequency with a scalar spin rate, an array eccentricity or an array viscosity with everything else scalar (the entry point broadcasts the scalar side itself).'
 
 def run(chk):
     repo = Repo(chk.repo)
@@ -513,20 +513,23 @@ def entry_points(chk, repo):
                 bad.append('angular momentum: d/dt(mu sqrt(G M a (1 - e^2))) + sum C dspin/dt != 0')
         return bad
     from ..core.interp import ArrBox
-    for arrays in (False, True, 'spin', 'orbit'):
+    for arrays in (False, True, 'spin', 'orbit', 'ecc', 'visc'):
         it = Interp(repo, hooks={'call': call_hook, 'branch': branch_hook}, max_depth=12)
         it.array_mode = arrays is True
-        mode = {False: '', True: ', array inputs', 'spin': ', array spin rate with a scalar orbit', 'orbit': ', array orbital frequency with a scalar spin rate'}[arrays]
+        mode = {False: '', True: ', array inputs', 'spin': ', array spin rate with a scalar orbit', 'orbit': ', array orbital frequency with a scalar spin rate',
+                'ecc': ', array eccentricity with everything else scalar', 'visc': ', array viscosity with a scalar rigidity'}[arrays]
         # single body
         M = X.atom('M0', 'pos'); m = X.atom('M1', 'pos'); C = X.atom('C1', 'pos'); spin = X.atom('spin1')
         for obl_on in (False, True):
-            if arrays in ('spin', 'orbit') and obl_on: continue
+            if arrays in ('spin', 'orbit', 'ecc', 'visc') and obl_on: continue
             kw = dict(host_mass=M, target_radius=X.atom('R1', 'pos'), target_mass=m, target_gravity=X.atom('g1', 'pos'), target_density=X.atom('rho1', 'pos'), target_moi=C,
                       viscosity=X.atom('eta1', 'pos'), shear_modulus=X.atom('mu1', 'pos'), rheology='Maxwell', eccentricity=e, orbital_frequency=n, spin_frequency=spin,
                       calculate_orbit_spin_derivatives=True, eccentricity_truncation_lvl=4)
             if obl_on: kw.update(obliquity=X.atom('I1'), use_obliquity=True)
             if arrays == 'spin': kw['spin_frequency'] = ArrBox(spin)         # mixed shapes: the scalar side is broadcast by the entry point itself
             if arrays == 'orbit': kw['orbital_frequency'] = ArrBox(n)
+            if arrays == 'ecc': kw['eccentricity'] = ArrBox(e)
+            if arrays == 'visc': kw['viscosity'] = ArrBox(kw['viscosity'])
 
             def one(fork, kw=kw):
                 it.hooks['fork'] = fork
@@ -542,7 +545,7 @@ def entry_points(chk, repo):
             lab = f'quick_tidal_dissipation (derivatives requested, obliquity tides {"on" if obl_on else "off"}{mode})'
             chk.ob('R11.9', f'{lab}: the returned heating, da/dt, de/dt and spin-rate derivative balance energy' + ('' if obl_on else ' and angular momentum'), not bad, '; '.join(bad[:2]), mq.where(fs),
                    key=f'R11.9|{lab}', method='whole-function interpretation (real mode summation, compliance stubbed) + GF(p^2) PIT')
-        if arrays in ('spin', 'orbit'): continue
+        if arrays in ('spin', 'orbit', 'ecc', 'visc'): continue
         # dual body
         Ms = (X.atom('M0', 'pos'), X.atom('M1', 'pos')); Cs = (X.atom('C0', 'pos'), X.atom('C1', 'pos')); sps = (X.atom('spin0'), X.atom('spin1'))
         for obl_on in (False, True):
@@ -605,4 +608,4 @@ def entry_points(chk, repo):
             done.append(nm_)
     chk.ob('R11.9', 'quick_dual_body_tidal_dissipation: a call returns the same heating and rates whatever was called before it (four scenarios sharing e and the worlds, in two orders)', not bad,
            '; '.join(bad[:2]), mq.where(fdu), key='R11.9|call-history', method='sequences of calls in one interpreter state vs fresh states, GF(p^2) PIT')
-    chk.floor("R11.9", 11)
+    chk.floor("R11.9", 13)
